@@ -5,6 +5,7 @@ import (
 	"errors"
 	"fmt"
 	"io"
+	"strconv"
 	"strings"
 	"time"
 
@@ -121,8 +122,9 @@ func Settings() []Setting {
 	}})
 	out = append(out, Setting{"LevelFieldMarshalFunc->custom", func() func() {
 		old := zerolog.LevelFieldMarshalFunc
-		zerolog.LevelFieldMarshalFunc = func(l zerolog.Level) string { return "L\"" + strings.ToUpper(l.String()) + "\n" }
-		return func() { zerolog.LevelFieldMarshalFunc = old }
+		zerolog.LevelFieldMarshalFunc = func(l zerolog.Level) string { return "L\"" + strings.ToUpper(RefLevelName(l)) + "\n" }
+		LevelMarshalDefault = false
+		return func() { zerolog.LevelFieldMarshalFunc = old; LevelMarshalDefault = true }
 	}})
 	out = append(out, Setting{"CallerMarshalFunc->custom", func() func() {
 		old := zerolog.CallerMarshalFunc
@@ -130,6 +132,43 @@ func Settings() []Setting {
 		return func() { zerolog.CallerMarshalFunc = old }
 	}})
 	return out
+}
+
+// LevelMarshalDefault is false while a deviating LevelFieldMarshalFunc is installed.
+var LevelMarshalDefault = true
+
+// RefLevelName is the documented text form of a level, written out here so that the reference does not lean
+// on Level.String(): the Level*Value variables for the seven named levels, "disabled", "" for NoLevel, the
+// decimal number otherwise.
+func RefLevelName(l zerolog.Level) string {
+	switch l {
+	case zerolog.TraceLevel:
+		return zerolog.LevelTraceValue
+	case zerolog.DebugLevel:
+		return zerolog.LevelDebugValue
+	case zerolog.InfoLevel:
+		return zerolog.LevelInfoValue
+	case zerolog.WarnLevel:
+		return zerolog.LevelWarnValue
+	case zerolog.ErrorLevel:
+		return zerolog.LevelErrorValue
+	case zerolog.FatalLevel:
+		return zerolog.LevelFatalValue
+	case zerolog.PanicLevel:
+		return zerolog.LevelPanicValue
+	case zerolog.Disabled:
+		return "disabled"
+	case zerolog.NoLevel:
+		return ""
+	}
+	return strconv.Itoa(int(l))
+}
+
+func refLevelText(l zerolog.Level) string {
+	if LevelMarshalDefault {
+		return RefLevelName(l)
+	}
+	return zerolog.LevelFieldMarshalFunc(l)
 }
 
 // ---- hooks ----
@@ -486,7 +525,7 @@ func ExpectEvent(m RefLogger, en Entry, fs []Field, fi Final) Expected {
 	}
 	ex.Written = true
 	if lvl != zerolog.NoLevel && zerolog.LevelFieldName != "" {
-		ex.Fields = append(ex.Fields, KV{Key: zerolog.LevelFieldName, Exp: S(zerolog.LevelFieldMarshalFunc(lvl))})
+		ex.Fields = append(ex.Fields, KV{Key: zerolog.LevelFieldName, Exp: S(refLevelText(lvl))})
 	}
 	ex.Fields = append(ex.Fields, m.Ctx...)
 	var chain []Field
